@@ -78,6 +78,7 @@ type Fail struct {
 }
 
 type FamilyReport struct {
+	AllCases      []Case // every case of the run (background load when failures are re-run)
 	Family        string
 	MCStates      int
 	MCDistinct    int
@@ -437,6 +438,7 @@ func RunFamily(f Family, o Options) *FamilyReport {
 		i := keys[rep.Fails[k].Case.Key]
 		rep.Fails[k].Replay = WriteReplay(&cases[i], outs[i], rep.Fails[k].Monitor)
 	}
+	rep.AllCases = cases
 	rep.Wall = time.Since(t0).Seconds()
 	return rep
 }
